@@ -44,13 +44,23 @@ def setup_case(root, c):
     tree = [dict(p='S', k='dir', mode=0o755)]
     for name, data in c.files:
         tree.append(dict(p='S/' + name, k='file', mode=0o644, data=data, sync=True))
-    if c.prior != 'absent':
+    if c.prior not in ('absent', 'same-meta'):
         tree.append(dict(p='D', k='dir', mode=0o755))
         for name, data in c.files:
             ln = scen.data_bytes(data)[0]
             pl = max(0, ln - 1 - ln // 3) if c.prior == 'shorter' else ln + 1 + ln // 2 + (5 if c.prior == 'longer' else 2 * K * 40)
             tree.append(dict(p='D/' + name, k='file', mode=0o600, data=[('seg', pl, 999)], sync=True))
+    if c.prior == 'same-meta':
+        # what an earlier copy of an EARLIER version left: same length, same modification time, other bytes
+        tree.append(dict(p='D', k='dir', mode=0o755))
+        for name, data in c.files:
+            ln = scen.data_bytes(data)[0]
+            tree.append(dict(p='D/' + name, k='file', mode=0o600, data=[('seg', ln, 4242)] if ln else [], sync=True))
     scen.materialise(root, tree)
+    if c.prior == 'same-meta':
+        for name, _ in c.files:
+            st = os.stat(f'{root}/S/{name}')
+            os.utime(f'{root}/D/{name}', ns=(st.st_atime_ns, st.st_mtime_ns))
     return [(f'{root}/S/{name}', f'{root}/D/{name}', data) for name, data in c.files]
 
 
